@@ -291,6 +291,14 @@ class Interp(object):
         out.append(self.compare(op, left, r))
         left = r
       return out[0] if len(out) == 1 else z3.And(*out)
+    if isinstance(node, ast.Tuple):
+      return tuple(self.eval(e, fr) for e in node.elts)
+    if isinstance(node, ast.Subscript):
+      base = self.eval(node.value, fr)
+      idx = node.slice
+      if isinstance(base, (tuple, list)) and isinstance(idx, ast.Constant) and isinstance(idx.value, int):
+        return base[idx.value]
+      raise Unsupported('subscript %s' % ast.unparse(node))
     if isinstance(node, ast.IfExp):
       return ite(as_bool(self.eval(node.test, fr)), self.eval(node.body, fr), self.eval(node.orelse, fr))
     if isinstance(node, ast.Call):
